@@ -46,6 +46,10 @@ from .values import (
     TupListV,
     as_T,
     from_T,
+    CLT,
+    TEL,
+    TLEN,
+    clt_axioms,
 )
 
 
@@ -324,6 +328,17 @@ class Engine:
             for f in c.side:
                 st.assume(f)
             c.side.clear()
+        for use in getattr(K.cls, "entry_lemmas", ()) or ():
+            # lemma chains (proved once as their own unit) instantiated at this function's arguments and
+            # available from the first statement on (loops need them)
+            lname, pick = use[0], use[1]
+            only = use[2] if len(use) > 2 else None
+            chain = dsl.LEMMAS[lname]["fn"](c, *pick(*params.values()))
+            self.assume_chain([it for it in chain if only is None or it[0] in only], st, top_only=True)
+            self.used_contracts.add(f"lemma:{lname}")
+            for f in c.side:
+                st.assume(f)
+            c.side.clear()
         self.pre_pc = list(st.pc)
         if K.value is not None and K.ensures is not None:
             v0 = K.value(c, *params.values())
@@ -442,11 +457,12 @@ class Engine:
             done[lname] = (lname, lo, hi, Pf)
         self.assume_chain(list(done.values()), hy)
 
-    def assume_chain(self, chain, hy):
+    def assume_chain(self, chain, hy, top_only=False):
         for item in chain:
             lo, hi, Pf = item[1], item[2], item[3]
             j = fresh("indq")
-            hy.assume(z3.ForAll([j], z3.Implies(z3.And(j >= Z(lo), j <= Z(hi)), B(Pf(IntV(j))))))
+            if not top_only:
+                hy.assume(z3.ForAll([j], z3.Implies(z3.And(j >= Z(lo), j <= Z(hi)), B(Pf(IntV(j))))))
             # the instance at the upper end is what callers usually need; the bound variable above
             # often has no usable trigger
             hy.assume(z3.Implies(Z(lo) <= Z(hi), B(Pf(IntV(Z(hi))))))
@@ -500,15 +516,20 @@ class Engine:
         hyps.extend(self.global_axioms)
         tconsts = [c_ for c_ in consts if c_.sort() == TUP]
         consts = [c_ for c_ in consts if z3.is_int(c_)]
-        if tconsts or self.row_registry:
+        if tconsts or self.row_registry or any(isinstance(v_, SeqV) and v_.meta.get("tterm") is not None for v_ in st.env.values()):
             # facts quantified over every integer tuple are triggered by tid(t): make them applicable to
             # the tuple constants of this goal and to the rows at the integer constants
             tmark = fresh_fun("tmark", z3.IntSort(), z3.BoolSort())
             for tc_ in tconsts:
                 hyps.append(tmark(TID(tc_)))
+                for M_ in getattr(self, "_map_funs", {}).values():
+                    hyps.append(tmark(TID(M_(tc_))))
             for row_ in self.row_registry:
                 for cst in consts:
                     hyps.append(tmark(TID(row_(cst))))
+            for v_ in st.env.values():  # the tuples held by local variables
+                if isinstance(v_, SeqV) and v_.meta.get("tterm") is not None:
+                    hyps.append(tmark(TID(v_.meta["tterm"])))
         # Seed the e-graph: E-matching can only instantiate the permutation axioms
         # (patterns F(i) / G(v)) at terms that exist.  mark is a fresh uninterpreted predicate, so
         # asserting mark(t) constrains nothing (conservative) but makes the terms F(c), G(c) available.
@@ -561,7 +582,7 @@ class Engine:
                 only = use[2] if len(use) > 2 else None  # the items of the chain this function needs
                 L = dsl.LEMMAS[lname]
                 chain = L["fn"](c, *pick(*self.params.values()))
-                self.assume_chain([it for it in chain if only is None or it[0] in only], hy)
+                self.assume_chain([it for it in chain if only is None or it[0] in only], hy, top_only=True)
                 self.used_contracts.add(f"lemma:{lname}")
         goal = K.ensures(c, *self.params.values(), val)
         el = getattr(K.cls, "ensures_locals", None)
@@ -1347,6 +1368,11 @@ class Engine:
         if isinstance(coll, SetV):
             return B(coll.contains(v))
         if isinstance(coll, (SeqV, ListV)):
+            if self.concrete:
+                n_c = z3.simplify(coll.n)
+                if z3.is_int_value(n_c):
+                    alts = [veq(coll.at(z3.IntVal(jj)), v) for jj in range(n_c.as_long())]
+                    return z3.Or(alts) if alts else z3.BoolVal(False)
             j = fresh("m")
             return z3.Exists([j], z3.And(j >= 0, j < coll.n, veq(coll.at(j), v)))
         if isinstance(coll, TupV):
@@ -1423,7 +1449,30 @@ class Engine:
     def ev_GeneratorExp(self, node, st):
         return self.comprehension(node.elt, node.generators, st, "gen")
 
+    def _mapped_tuple(self, node, st):
+        """[P[x] for x in T] with T a tuple term and P a named sequence: the tuple term thru_P(T)"""
+        if self.concrete or len(node.generators) != 1:
+            return None
+        g = node.generators[0]
+        e = node.elt
+        if g.ifs or not isinstance(g.target, ast.Name) or not (isinstance(e, ast.Subscript) and isinstance(e.value, ast.Name)
+                                                                and isinstance(e.slice, ast.Name) and e.slice.id == g.target.id):
+            return None
+        if not isinstance(g.iter, ast.Name):
+            return None
+        src = st.env.get(g.iter.id)
+        base = st.env.get(e.value.id)
+        if not (isinstance(src, SeqV) and src.meta.get("tterm") is not None and isinstance(base, SeqV) and base.meta.get("fun") is not None):
+            return None
+        # every element of T must be a valid index of P: the usual bounds obligation, for an arbitrary position
+        j = fresh("mj")
+        self.emit("index-bounds", st, z3.ForAll([j], z3.Implies(z3.And(j >= 0, j < src.n), z3.And(Z(src.at(j)) >= 0, Z(src.at(j)) < base.n))), "@load")
+        return from_T(self.map_through(base, src.meta["tterm"]))
+
     def ev_ListComp(self, node, st):
+        mt = self._mapped_tuple(node, st)
+        if mt is not None:
+            return mt
         out = self.comprehension(node.elt, node.generators, st, "list")
         if isinstance(out, SeqV):
             return ListV(out.n, out._at)
@@ -1683,6 +1732,31 @@ class Engine:
             if getattr(fv, "contract", None) is not None:
                 return self.call_inner(fv, args, st)
         raise Unsupported("call of a nested def without an inner contract")
+
+    # ---------------------------------------------------- tuples mapped through a sequence, counts
+    def map_through(self, seq, tau):
+        """the tuple (seq[e] for e in t) as a TERM: one function symbol per mapping sequence, defined
+        pointwise (definitional axiom).  Used for `[patt[i] for i in indices]`."""
+        F_ = seq.meta.get("fun") if isinstance(seq, SeqV) else None
+        if F_ is None:
+            raise Unsupported("mapping a tuple through a sequence that is not a named parameter")
+        key = F_.get_id()
+        if not hasattr(self, "_map_funs"):
+            self._map_funs = {}
+        if key not in self._map_funs:
+            M_ = fresh_fun("thru", TUP, TUP)
+            t_ = z3.Const(f"thru_t!{next(_SK)}", TUP)
+            j_ = fresh("tj")
+            self.global_axioms.append(z3.ForAll([t_], TLEN(M_(t_)) == TLEN(t_), patterns=[M_(t_)], qid="thru-len"))
+            self.global_axioms.append(z3.ForAll([t_, j_], TEL(M_(t_), j_) == F_(TEL(t_, j_)), patterns=[TEL(M_(t_), j_), z3.MultiPattern(M_(t_), TEL(t_, j_))], qid="thru-el"))
+            self._map_funs[key] = M_
+        return self._map_funs[key](tau)
+
+    def count_below(self, tau, v, upto=None):
+        if not getattr(self, "_clt_on", False):
+            self._clt_on = True
+            self.global_axioms.extend(clt_axioms())
+        return IntV(CLT(tau, Z(v), TLEN(tau) if upto is None else Z(upto)))
 
     # ---------------------------------------------------- nested functions under an inner contract
     def fresh_tuplist(self, st, empty=False):
